@@ -210,7 +210,8 @@ def run(ctx):
             for _ in range(rng.randint(1, 2)):
                 tubes.append({"r": 12.7, "t": rng.choice([1.0, 1.5]), "h": rng.choice([1000.0, 2000.0]), "nr": 3, "nt": 4, "nz": 2,
                               "dim": rng.choice([1, 1, 2]), "T0": 300.0, "dT": [0.0, rng.uniform(100, 500), rng.uniform(100, 500)],
-                              "pressure": [0.0, rng.uniform(0, 5), rng.uniform(0, 5)]})
+                              "pressure": [0.0, rng.uniform(0, 5), rng.uniform(0, 5)],
+                              "tjit": rng.choice([0.0, 0.0, 2.0 ** -52, -2.0 ** -52, 2.0 ** -51])})
             rc["panels"].append({"popt": rnd(rng, 500, 50000) if po == "num" else po, "tubes": tubes})
         rcases.append(rc)
 
